@@ -23,6 +23,7 @@ import (
 )
 
 type c10Fut struct {
+	Inner    bool // created by f0's body instead of by the creator thread (its context derives from f0's)
 	Idx      int
 	Body     string
 	Tok      int
@@ -168,7 +169,7 @@ func (w *c10World) callerFn(idx int) func(*Task) {
 			if op.Deadline > 0 {
 				ctx, cancel = context.WithTimeout(th.ctx, op.Deadline)
 			}
-			w.s.Rec("inv", op.ID, "", 0)
+			w.s.Rec("inv", op.ID, "", int64(w.s.Now()))
 			res, err := lisp.EVAL(ctx, op.ast, w.env)
 			recRet(w.s, op.ID, res, err, ctx.Err() != nil)
 			if cancel != nil {
@@ -180,6 +181,11 @@ func (w *c10World) callerFn(idx int) func(*Task) {
 
 func (w *c10World) creatorFn(t *Task) {
 	for _, f := range w.futs {
+		if f.Inner {
+			// wait until f0's body has defined f1 (callers must find the name)
+			w.s.WaitUntil("inner-defined", w.innerDefined)
+			continue
+		}
 		id := "create" + strconv.Itoa(f.Idx)
 		w.s.Rec("inv", id, "", 0)
 		res, err := lisp.EVAL(w.creator, mustRead("(def "+futName(f.Idx)+" "+f.Src+")"), w.env)
@@ -188,6 +194,14 @@ func (w *c10World) creatorFn(t *Task) {
 	for i := range w.threads {
 		w.s.Go("caller"+strconv.Itoa(i), w.callerFn(i))
 	}
+}
+
+// innerDefined: f0's body has defined f1 and said so (evaluated by the scheduler while nobody runs; it
+// must not read the environment itself: the scheduler's synchronisation is invisible to the detector).
+//
+//go:norace
+func (w *c10World) innerDefined() bool {
+	return w.s.GateOpen(`"f1-defined"`)
 }
 
 // GateCtxProbe wraps gate-ctx!: records, when the body leaves the gate, whether its context had ended.
@@ -288,7 +302,19 @@ func (c10) Run(tp *Tape, opt RunOpt) *RunOut {
 			f.Src, f.Normal, f.NormalOK = "(future "+tr+" @(future (do (spin 2) "+k+")))", k, true
 		}
 		w.futs = append(w.futs, f)
-		rendering = append(rendering, "creator: (def "+futName(i)+" "+f.Src+")")
+	}
+	if nFut == 2 && w.futs[0].Body != "deref-other" && w.futs[1].Body != "deref-other" && tp.Chance(LaneWork, 1, 3) {
+		// f1 is started by f0's body, which then completes on its own: f1 outlives the future that made it
+		w.futs[1].Inner = true
+		f0 := w.futs[0]
+		f0.Src = strings.Replace(f0.Src, "(trace! :body-"+strconv.Itoa(f0.Tok)+")", "(trace! :body-"+strconv.Itoa(f0.Tok)+") (eval (quote (def f1 "+w.futs[1].Src+"))) (open-gate! \"f1-defined\")", 1)
+	}
+	for _, f := range w.futs {
+		if f.Inner {
+			rendering = append(rendering, "(f1 is defined by the body of f0)")
+			continue
+		}
+		rendering = append(rendering, "creator: (def "+futName(f.Idx)+" "+f.Src+")")
 	}
 	rootCtx, rootCancel := context.WithCancel(context.Background())
 	s.AddCancel(rootCancel)
@@ -373,6 +399,9 @@ func (c10) Run(tp *Tape, opt RunOpt) *RunOut {
 
 	// ---- history ----
 	type rec struct {
+		invAt    time.Duration // simulated instant of the invocation
+		wokeAt   time.Duration // simulated instant at which its blocking deref fired (-1: never blocked)
+		task     int
 		op       *c10Op
 		inv, ret uint64
 		res      string
@@ -387,6 +416,7 @@ func (c10) Run(tp *Tape, opt RunOpt) *RunOut {
 		}
 	}
 	recs := map[string]*rec{}
+	curOp := map[int]*rec{}
 	var order []*rec
 	bodyRet := make([]uint64, nFut)
 	bodyEnd := make([]uint64, nFut)
@@ -401,9 +431,14 @@ func (c10) Run(tp *Tape, opt RunOpt) *RunOut {
 		switch ev.Kind {
 		case "inv":
 			if op, ok := ops[ev.A]; ok {
-				r := &rec{op: op, inv: ev.Seq}
+				r := &rec{op: op, inv: ev.Seq, invAt: time.Duration(ev.N), wokeAt: -1, task: ev.Task}
 				recs[ev.A] = r
 				order = append(order, r)
+				curOp[ev.Task] = r
+			}
+		case "woke":
+			if r := curOp[ev.Task]; r != nil && !r.done && strings.HasPrefix(ev.A, "future.deref") {
+				r.wokeAt = time.Duration(ev.N)
 			}
 		case "ret":
 			if r, ok := recs[ev.A]; ok {
@@ -488,6 +523,15 @@ func (c10) Run(tp *Tape, opt RunOpt) *RunOut {
 			}
 			// the body may legitimately end with a timeout-kind error when its context can be cancelled
 			cancellable := anyCancelOp || creatorDeadline > 0 || f.Body == "deref-other"
+			if f.Inner {
+				// f1's context derives from f0's: a cancel that took effect on f0 reaches f1 as well; one
+				// that returned false "changes nothing"
+				for _, r := range order {
+					if r.op.Fut == 0 && r.op.Kind == "cancel" && (!r.done || r.res != "false") {
+						cancellable = true
+					}
+				}
+			}
 			fn := futName(i)
 			// O1: the body is evaluated exactly once
 			if traceN[i] > 1 {
@@ -495,6 +539,13 @@ func (c10) Run(tp *Tape, opt RunOpt) *RunOut {
 			}
 			if traceN[i] == 0 && !cancellable {
 				viol("O1-body-once", "body-never-ran", "the body of "+fn+" never ran although nothing could cancel it")
+			}
+			// a deref blocks "until the outcome is available or the caller's context ends": one that was still
+			// blocked when its deadline passed must be released at that instant, not later
+			for _, d := range derefs {
+				if d.op.Deadline > 0 && d.wokeAt >= 0 && d.wokeAt > d.invAt+d.op.Deadline {
+					viol("O3-deref-outlives-context", "deref-released-after-its-deadline", "deref was invoked at "+d.invAt.String()+" with a deadline of "+d.op.Deadline.String()+" but its wait ended only at "+d.wokeAt.String()+": "+line(d))
+				}
 			}
 			// O2/O3: outcome-returning derefs agree, match the body, and do not precede the body's end
 			var outcomes []*rec
